@@ -412,8 +412,13 @@ static int answer_from_dnscache(int dns_fd, int userid, struct query *q)
 		if (users[userid].dnscache_answerlen[use] <= 0)
 			continue;
 
+		/* A waiting query is answered together with its last copy,
+		   which a relay may have spelled in other letter case: a
+		   repeat of that copy must find the answer here, too. (Two
+		   different queries of one client never differ in case
+		   only, see same_waiting_query().) */
 		if (users[userid].dnscache_q[use].type != q->type ||
-		    strcmp(users[userid].dnscache_q[use].name, q->name))
+		    strcasecmp(users[userid].dnscache_q[use].name, q->name))
 			continue;
 
 		/* okay, match */
